@@ -143,6 +143,9 @@ func recordPoint(args []string) (any, error) {
 			if rng.Intn(40) == 0 {
 				o = sop{O: "set_measurement", K: k, V: sval{K: "nil"}}
 			}
+			if rng.Intn(25) == 0 {
+				o = sop{O: "set_tag_unconv", K: k, V: sval{K: "nil"}, T: []string{"attr", "inflist"}[rng.Intn(2)]}
+			}
 			sc, err := cache.load(o.script())
 			if err != nil {
 				return nil, fmt.Errorf("load %q: %v", o.script(), err)
